@@ -346,23 +346,34 @@ def evaluate(built, focus):
             # script as the stepped Differ the correspondence observes; if it does not, the property is judged on it too
             if not desc["opts"].get("_embed"):
                 stats["api_calls"] = stats.get("api_calls", 0) + 1
+                rawt = [tuple([type(a).__name__] + list(a)) for a in raw]
                 api = api_script(desc, opts)
-                if api != [tuple([type(a).__name__] + list(a)) for a in raw]:
+                if api != rawt:
                     stats["api_differs"] = stats.get("api_differs", 0) + 1
-                    if isinstance(api, str):
-                        found.append(("C01", "main.diff_trees raised %s where Differ.match() + Differ.diff() returns a script" % api))
-                    else:
-                        from xmldiff import actions as A
-                        acts = [getattr(A, a[0])(*a[1:]) for a in api]
-                        nsa = [a for a in acts if type(a).__name__ in ("InsertNamespace", "DeleteNamespace")]
-                        L2, R2 = etree.fromstring(desc["left"]), etree.fromstring(desc["right"])
-                        found += [(p_, "[main.diff_trees] " + m) for p_, m in oracles.check_script(L2, R2, acts, ign) + oracles.check_patch(L2, R2, acts, ign)]
-                        if same and len(acts) > len(nsa):
-                            found.append(("C03", "[main.diff_trees] non-empty script for equal documents: %r" % (acts,)))
-                        if not same_ign and not acts:
-                            found.append(("C03", "[main.diff_trees] empty script for different documents"))
-                        if ign and same_ign and len(acts) > len(nsa):
-                            found.append(("C13", "[main.diff_trees] documents differ only in ignored attributes but the script is %r" % (acts,)))
+                    found += judge_other("main.diff_trees", desc["left"], desc["right"], api, ign)
+                # ONE Differ per option set serves the whole run: (a) these documents, freshly parsed; (b) the left document
+                # of an earlier case against THIS right tree object once more (several revisions against one reference)
+                okey = json.dumps(desc["opts"], sort_keys=True, default=list)
+                sh = _SHARED.get(okey)
+                if sh is None:
+                    from xmldiff import diff as xd
+                    o_ = {k: v for k, v in opts.items() if not k.startswith("_")}
+                    sh = _SHARED[okey] = {"differ": xd.Differ(**o_), "opts": o_, "prev": None}
+                Ro = etree.fromstring(desc["right"])
+                got = tuples_of(lambda: sh["differ"].diff(etree.fromstring(desc["left"]), Ro))
+                stats["reused_differ_calls"] = stats.get("reused_differ_calls", 0) + 1
+                if got != rawt:
+                    found += judge_other("a Differ used for earlier documents", desc["left"], desc["right"], got, ign)
+                found += reused_matches(sh["differ"], Ro)
+                if sh["prev"] is not None and stats["reused_differ_calls"] % 2 == 0:
+                    got2 = tuples_of(lambda: sh["differ"].diff(etree.fromstring(sh["prev"]), Ro))
+                    from xmldiff import diff as xd
+                    want2 = tuples_of(lambda: xd.Differ(**sh["opts"]).diff(etree.fromstring(sh["prev"]), etree.fromstring(desc["right"])))
+                    stats["reused_differ_calls"] += 1
+                    if got2 != want2 and not isinstance(want2, str):
+                        found += [(p_, m + " [left=%s]" % sh["prev"]) for p_, m in
+                                  judge_other("a Differ fed the same right tree object again", sh["prev"], desc["right"], got2, ign)]
+                sh["prev"] = desc["left"]
         # C07 on the matching (evaluated before the script was generated)
         found += c["c07"]
         # a similarity-oracle law that the theorems assume fails on a value CPython produced
@@ -382,6 +393,51 @@ def evaluate(built, focus):
     stats["action_histogram"] = hist
     viols.sort(key=lambda v: len(v["replay"]["left"]) + len(v["replay"]["right"]))
     return viols, stats
+
+
+_SHARED = {}
+
+
+def tuples_of(gen):
+    try:
+        return [tuple([type(a).__name__] + list(a)) for a in gen()]
+    except Exception as ex:  # noqa
+        return "exc:" + type(ex).__name__
+
+
+def reused_matches(d, Ro):
+    """C07, identity clauses, on the matching a REUSED Differ exposes after diff(l, r): nodes of these two documents
+    only, roots paired, one-to-one (attribute clauses are judged before the script generation, on the stepped Differ)."""
+    out = []
+    ms = list(d._matches or [])
+    lall, rall = {id(e) for e in d.left.iter()}, {id(e) for e in Ro.iter()}
+    if any(id(a) not in lall or id(b) not in rall for a, b, _ in ms):
+        out.append(("C07", "[a Differ used for earlier documents] after diff(l, r) the matching pairs nodes that belong to other documents"))
+    if not any(a is d.left and b is Ro for a, b, _ in ms):
+        out.append(("C07", "[a Differ used for earlier documents] after diff(l, r) the two roots are not paired"))
+    if len({id(a) for a, _, _ in ms}) != len(ms) or len({id(b) for _, b, _ in ms}) != len(ms):
+        out.append(("C07", "[a Differ used for earlier documents] after diff(l, r) a node is matched twice"))
+    return out
+
+
+def judge_other(how, lx, rx, script, ign):
+    """The differ properties judged on a script obtained another way than the stepped fresh Differ."""
+    if isinstance(script, str):
+        return [("C01", "%s: raised %s where a new Differ returns a script" % (how, script))]
+    from xmldiff import actions as A
+    acts = [getattr(A, a[0])(*a[1:]) for a in script]
+    nsa = [a for a in acts if type(a).__name__ in ("InsertNamespace", "DeleteNamespace")]
+    L2, R2 = etree.fromstring(lx), etree.fromstring(rx)
+    out = [(p_, "[%s] %s" % (how, m)) for p_, m in oracles.check_script(L2, R2, acts, ign) + oracles.check_patch(L2, R2, acts, ign)]
+    same = oracles.canon(oracles.from_lxml(L2)) == oracles.canon(oracles.from_lxml(R2))
+    same_ign = oracles.canon(oracles.from_lxml(L2), ignored=ign) == oracles.canon(oracles.from_lxml(R2), ignored=ign)
+    if same and len(acts) > len(nsa):
+        out.append(("C03", "[%s] non-empty script for equal documents: %r" % (how, acts)))
+    if not same_ign and not acts:
+        out.append(("C03", "[%s] empty script for different documents" % how))
+    if ign and same_ign and len(acts) > len(nsa):
+        out.append(("C13", "[%s] documents differ only in ignored attributes but the script is %r" % (how, acts)))
+    return out
 
 
 def api_script(desc, opts):
